@@ -155,9 +155,12 @@ def concretise(beh, key, pick_method, variant=0):
                 steps.append({"op": "resp", "id": 777})
             else:
                 raise vlib.ToolError("in-process session cannot play message kind %s" % k)
-        elif a in ("TaskFinish", "TaskPanic"):
-            steps.append({"op": "finish", "id": h["id"]})
-    return {"run": key, "sched": True, "steps": steps}, info
+        elif a in ("TaskRespond", "TaskPanic"):
+            # the handler task runs to its end; the wrapper task answers and parks at the cancellation map
+            steps.append({"op": "respond", "id": h["id"]})
+        elif a == "TaskRemove":
+            steps.append({"op": "remove", "id": h["id"]})
+    return {"run": key, "sched": True, "split": True, "steps": steps}, info
 
 
 # --------------------------------------------------------------------------------------------
@@ -512,3 +515,55 @@ def position_request(method, uri, pos):
         r = {"start": lsp_pos(pos[0]), "end": lsp_pos(pos[1])}
         t = method_table(uri=uri, rng=r)
     return t[method]
+
+
+# concrete strings of the string-parameter classes of spec/LsPositions.tla (NameClasses, ChClasses)
+NAME_CLASSES = {"ident": "zz", "empty": "", "keyword": "end", "space": "a b", "digit": "1x", "nonascii": "\u00e9\U0001F600"}
+CH_CLASSES = {"newline": "\n", "letter": "d", "empty": "", "astral": "\U0001F600"}
+DIAG_DATA = {"unknown-doc-tag": "verif", "preferred-local-alias": {"preferredAlias": "zz"}}
+
+
+def cell_request(cell, uri, mined=None):
+    """params of the request of one cell of spec/LsPositions.tla: cell["pos"][i] is the concrete position of
+    the i-th position-like parameter cell["slots"] names; mined = {"callHierarchy": data, "codeLens": data}
+    (opaque `data` members the server handed out for this document, or absent)."""
+    mined = mined or {}
+    method = cell["req"]
+    ps = [lsp_pos(p) for p in cell["pos"]]
+    td = {"uri": uri}
+    opt = {"tabSize": 4, "insertSpaces": True}
+
+    def rng(i):
+        return {"start": ps[i], "end": ps[i + 1]}
+
+    if method == "textDocument/selectionRange":
+        return {"textDocument": td, "positions": ps}
+    if len(ps) == 1:
+        t = method_table(uri=uri, pos=ps[0])[method]
+        if method == "textDocument/rename":
+            t["newName"] = NAME_CLASSES[cell["opt"]]
+        elif method == "textDocument/onTypeFormatting":
+            t["ch"] = CH_CLASSES[cell["opt"]]
+        return t
+    if len(ps) == 2:
+        t = method_table(uri=uri, rng=rng(0))[method]
+        if method == "codeLens/resolve" and mined.get("codeLens") is not None:
+            t["data"] = mined["codeLens"]
+        return t
+    if method == "textDocument/inlineValue":
+        return {"textDocument": td, "range": rng(0), "context": {"frameId": 1, "stoppedLocation": rng(2)}}
+    if method == "textDocument/codeAction":
+        diags = []
+        for code in cell["codes"]:
+            d = {"range": rng(2), "severity": 2, "source": "EmmyLua", "code": code, "message": "verif"}
+            if code in DIAG_DATA:
+                d["data"] = DIAG_DATA[code]
+            diags.append(d)
+        return {"textDocument": td, "range": rng(0), "context": {"diagnostics": diags}}
+    if method in ("callHierarchy/incomingCalls", "callHierarchy/outgoingCalls"):
+        item = {"name": "f", "kind": 12, "uri": uri, "range": rng(0), "selectionRange": rng(2)}
+        if mined.get("callHierarchy") is not None:
+            item["data"] = mined["callHierarchy"]
+        return {"item": item}
+    raise vlib.ToolError("no concretisation for %s with %d positions" % (method, len(ps)))
+
